@@ -9,7 +9,11 @@ des       des_encrypt_int_block / des_encrypt_block / expand_des_key / shrink_de
           key/salt configurations -- the coverage is measured on the reference's trace and asserted;
           all 4096 values of the low and of the high 12 salt bits; every single salt bit, its
           complement, the all-ones salt; rounds 1..26; the bytes API with 7- and 8-byte keys;
-          key expansion/shrinking of every 7-bit (8-bit) group value at every position, as inverses.
+          every nibble value at every nibble position of key and block plus 128 dense keys (so that
+          every reachable entry of passlib's 4-bit-indexed permutation tables is read -- measured by
+          wrapping des._permute, reported as des_impl_permutation_table_entries_read);
+          key expansion/shrinking of every 7-bit (8-bit) group value at every position, as inverses;
+          arguments DES does not define (sizes, ranges) must be refused.
 bcrypt    raw_bcrypt with BOTH engines (base, unrolled) against the bcrypt wheel and libxcrypt.
 md4       passlib.crypto._md4.md4 against the RFC 1320 reference (mc.refs.md4): every length, every
           2-split, 3-splits, copy() at every split point, digest() idempotence, hexdigest.
@@ -44,7 +48,8 @@ LEVEL = "exploration"
 RULE = (
     "full cartesian products per primitive: DES unit-vector keys x blocks (+complements), constructed inputs "
     "reading every S-box entry in every round (asserted on the reference trace), all 2x4096 12-bit salt halves, "
-    "salt bit lanes, rounds 1..26, bytes API with 7/8-byte keys, key expand/shrink per group value x position; "
+    "salt bit lanes, rounds 1..26, bytes API with 7/8-byte keys, key/block nibble lanes + dense keys (every reachable "
+    "permutation-table entry), key expand/shrink per group value x position; "
     "bcrypt engine{base,unrolled} x ident{2,2a,2y,2b} x cost x password length x content x salt lanes; MD4 every "
     "length x content, every 2-split (3-splits) with copy() at each cut; scrypt N x r x p x keylen and the "
     "validate() grid; HMAC digest x key length x message length x call mode; PBKDF1/2 digest x rounds x every "
@@ -54,7 +59,16 @@ RULE = (
 )
 
 MASK64 = (1 << 64) - 1
-logging.getLogger("passlib").setLevel(logging.ERROR)
+
+
+class _QuietHashNames(logging.Filter):
+    """passlib.crypto.digest announces every unusual digest name ('sha512_224') on the root logger"""
+
+    def filter(self, record):
+        return "normalizing unrecognized hash name" not in str(record.msg)
+
+
+logging.getLogger().addFilter(_QuietHashNames())
 
 
 def filler(seed, n, tag=b""):
